@@ -3,9 +3,9 @@
 CFG = {
     'sub': 'c09',
     'gens': [],
-    # everything Run_C09.v (-> Model_C02 -> Model_C19, Model_C01) and Props_C09.v (-> Proofs_C09 -> Model_C09, Run_C09) depend on
+    # everything Run_C09.v (-> Model_C02 -> Model_C19, Model_C01) and Props_C09.v (-> Proofs_C09b -> Proofs_C09 -> Model_C09, Run_C09) depend on
     'coq_files': ['Bytes.v', 'U64.v', 'KeyLayout.v', 'Pack.v', 'Value.v', 'Obs.v', 'Model_C19.v', 'Model_C01.v', 'Model_C02.v',
-                  'Run_C09.v', 'Model_C09.v', 'Proofs_C09.v', 'Props_C09.v'],
+                  'Run_C09.v', 'Model_C09.v', 'Proofs_C09.v', 'Proofs_C09b.v', 'Props_C09.v'],
     'props': 'Props_C09.v', 'run': 'Run_C09.v',
     'harness_timeout': 900,
     'widen_runs': 2,
@@ -92,7 +92,19 @@ LEVEL = {
             'in every calm schedule (no commit while a read transaction is open, no removal of the manager entry while it is '
             'write-locked; c09_evict_stale_refuted shows the warm cache stale otherwise: finding F6 of C08 / C11); '
             '(c09_serial_safe) in schedules whose transactions do not overlap no search crashes or fails spuriously: every outcome '
-            'equals the sequential answer on the reader\'s snapshot. The two defects named in the property text are theorems about '
+            'equals the sequential answer on the reader\'s snapshot; (c09_inside_write_window) the forced schedules of the check: '
+            'in ANY state (reachable or not) in which the writer is stopped inside its write transaction -- the registered cache '
+            'write-locked and already updated to the version about to be committed or rolled back, storage not committed -- a '
+            'search of any idle reader with any program, run start to end at that point, takes a private cold cache and ends with '
+            'exactly the sequential answer on the only committed version, and changes nothing else: not the heap (the write-locked '
+            'cache), the committed versions, the writer or any other reader, and the manager entry only if the program itself gives '
+            'up; (c09_early_unlock_refuted) the seeded defect "cache lock released before the storage commit", codes 171 / 191: '
+            'from the toy state that differs from the writer\'s in-transaction state only in the dropped lock the same search '
+            'finds the uncommitted node in the shared cache and fails with "point does not exist" although it answers Ok on the '
+            'only committed version -- and that state is unreachable in the model from any cold start by any schedule, because '
+            'every cached item of a cache that is not write-locked inside the writer\'s transaction is an entry of the index of a '
+            'committed version (lemma c09_lock_covers_commit, all configurations). '
+            'The two defects named in the property text are theorems about '
             'the faithful model: (c09_spurious_refuted) KNOWN FINDING, code 191: a reader with snapshot v0 acquires the shared cache '
             'after the writer updated it, committed v1 and unlocked, finds the node inserted by that batch and fails the lookup in '
             'its own snapshot with "could not get point by node id N: point does not exist", although its cache accesses do not '
@@ -107,12 +119,17 @@ LEVEL = {
     'design_ref': 'DESIGN.md 4.9',
     'note': 'Trusted: Coq kernel; Model_C09.v (tied to the Go code by reading); the harness and its child-process runner; Run_C09.v '
             'with the reference spec of C01. Assumed, not proved: the Go memory model (data races are left to the race detector), '
-            'bbolt MVCC. The forced-schedule enumeration of DESIGN 4.9 (a) is not implemented: the model is tied to the code by the '
-            'stress runs reproducing exactly the two failure kinds the model predicts (191 still present and known; the crash of the '
-            'shared-handle defect is now a clean error). c09_serial_safe is stated for non-overlapping TRANSACTIONS; the weaker '
+            'bbolt MVCC. The model is tied to the code by (a) the stress runs, (b) forced schedules: searches run start to end while '
+            'the writer is stopped inside its bbolt write transaction (before the batch callback, after it returned nil, after it '
+            'returned an error) must answer from the one committed version (c09_inside_write_window is the model statement; a '
+            'change that releases the cache lock before the storage commit is reported as code 171, c09_early_unlock_refuted), and '
+            '(c) read-only concurrency from a cold start, which reproduces the shared-handle defect on the real code without any '
+            'writer (codes 165 / 194, known; before fix 581ddda a crash, now a clean error). A full enumeration of pause points '
+            'inside a cache access is not possible from outside: the item cache holds its mutex across bucket reads. c09_serial_safe is stated for non-overlapping TRANSACTIONS; the weaker '
             'reading of DESIGN 4.9 (non-overlapping cache accesses) is refuted by c09_spurious_refuted. All theorems of '
             'Props_C09.v are closed under the global context.',
     'technique': 'Coq proof (snapshot / shared-handle model: results are live in the reader\'s snapshot for every schedule, serial '
                  'schedules never fail, final state = sequential application; counterexample schedules for the two known defects) '
-                 '+ concurrent stress runs judged against the committed-version timeline',
+                 '+ concurrent stress runs, forced schedules with the writer stopped inside its transaction, and read-only '
+                 'concurrency runs, all judged against the committed-version timeline',
 }
